@@ -265,7 +265,7 @@ func init() {
 				n = 200000
 			}
 			genHeads(r, n, emit)
-			cfgs := []string{"", "", "rm=1", "dn=1", "npp=1", "rb=256", "rm=1,dn=1", "mb=64", "rb=8192"}
+			cfgs := []string{"", "", "rm=1", "dn=1", "npp=1", "rb=256", "rm=1,dn=1", "mb=64", "rb=8192", "go=1", "go=1,rm=1", "go=1,dn=1"}
 			for i := 0; i < n; i++ {
 				var stream []byte
 				m := 1 + r.Intn(5)
